@@ -107,6 +107,18 @@ CHECKS = {
             "satisfy the stated precondition by construction, including coincident edges and a shared domain.",
             "Monitors in vchecks/c17.py; inputs change only between clock events.",
             "DESIGN.md §4 C17"),
+    "C15": ("exploration",
+            "Hypothesis-generated layout trees, bit patterns, initialisers and enum classes; oracle = placement rules and "
+            "bit slicing computed on the descriptor, Python's enum.Flag for flag operators; round-trip and differential "
+            "(data.Const arithmetic vs View slicing in simulation vs assignment statements)",
+            "Layout trees (struct/union/array/flexible with gaps and overlaps, signed and enum leaves) are generated with all "
+            "bit patterns for small layouts; offsets, const()/from_bits()/as_bits() round trips, read-back at every path, "
+            "view reads in simulation (incl. array slices and dynamic indices) and writes through view fields by ctx.set, "
+            "comb and sync statements are compared with a slice model; Struct/Union classes with defaults; shaped "
+            "Enum/IntEnum/Flag/IntFlag round trips and FlagView operators against Python's enum.Flag.",
+            "Model in vchecks/c15.py. Synthesis (RTLIL) agreement for view assignments is covered through C04's evaluator when "
+            "that check is registered; here comb/sync statements are judged in simulation.",
+            "DESIGN.md §4 C15"),
 }
 
 TITLES = {}
